@@ -112,6 +112,65 @@ def greedyGo (N : Num F) (pm : PM F) : Nat → List Nat → Nat → List Nat →
 def greedyTour (N : Num F) (pm : PM F) (n : Nat) : Option (List Nat) :=
   greedyGo N pm (remaining0 n).length [0] 0 (remaining0 n)
 
+inductive TourOut where
+  | ok (route : List Nat)
+  | panic
+  /-- the witness is not a legal sequence of choices (index outside `remaining`, too short, too long; for the
+  greedy route: not an index of maximal pheromone) -/
+  | badWitness
+  deriving Repr, DecidableEq
+
+/-! ### The greedy route with the tie-breaking left open
+
+`max_by` keeps the last of several maximal trails; the property only asks for *a* greedy route. `greedyGoW` is the
+greedy construction as a function of a witness (the index taken from `remaining` at every step); a witness is
+legal iff every index it takes has a trail that no other remaining city exceeds under `le`. The code-shaped
+`greedyGo` is the instance "last maximal index" (`Props.C19.argmax_last_is_legal_witness`). -/
+
+/-- `k` indexes an element of `ph` that no element of `ph` exceeds. -/
+def isArgmax (le : F → F → Bool) (ph : List F) (k : Nat) : Bool :=
+  match ph[k]? with
+  | none => false
+  | some w => ph.all (fun x => le x w)
+
+def greedyGoW (le : F → F → Bool) (pm : PM F) : List Nat → List Nat → Nat → List Nat → TourOut
+  | [], route, _, remaining => if remaining.isEmpty then .ok route else .badWitness
+  | k :: ks, route, last, remaining =>
+    if remaining.isEmpty then .badWitness
+    else
+      match pheromones pm last remaining with
+      | none => .panic
+      | some ph =>
+        if isArgmax le ph k then
+          match remaining[k]? with
+          | none => .badWitness
+          | some c => greedyGoW le pm ks (route ++ [c]) c (remaining.eraseIdx k)
+        else .badWitness
+
+def greedyTourW (le : F → F → Bool) (pm : PM F) (n : Nat) (gw : List Nat) : TourOut :=
+  greedyGoW le pm gw [0] 0 (remaining0 n)
+
+/-- The indices (into `remaining`, `Vec::remove` semantics) a route took; an unexplainable city gives an index
+outside `remaining`, which no model accepts. -/
+def recoverWitGo : List Nat → List Nat → List Nat
+  | [], _ => []
+  | c :: cs, rem =>
+    match rem.findIdx? (· == c) with
+    | some k => k :: recoverWitGo cs (rem.eraseIdx k)
+    | none => rem.length :: recoverWitGo cs rem
+
+def recoverWit (n : Nat) (t : List Nat) : List Nat := recoverWitGo t.tail (remaining0 n)
+
+/-- A sampling witness is legal iff it has one index per step and every index points into what is left of
+`remaining` (`m` cities left). These are exactly the values `WeightedIndex::sample` can return. -/
+def witLegalGo : List Nat → Nat → Bool
+  | [], m => m == 0
+  | k :: ks, m => decide (k < m) && witLegalGo ks (m - 1)
+
+/-- One legal witness per ant. -/
+def witsLegal (n numAnts : Nat) (wits : List (List Nat)) : Bool :=
+  wits.length == numAnts && wits.all (fun w => witLegalGo w (n - 1))
+
 variable [Add F] [Sub F] [Mul F] [Div F] [LT F] [LE F] [DecidableLT F] [DecidableLE F]
   [OfNat F 0] [OfNat F 1]
 
@@ -131,13 +190,6 @@ def weightsLegal (N : Num F) : List F → Bool
     (w :: rest).all (fun x => decide ((0 : F) ≤ x)) &&
       (let total := rest.foldl (· + ·) w
        decide ((0 : F) < total) && N.fin total)
-
-inductive TourOut where
-  | ok (route : List Nat)
-  | panic
-  /-- the witness is not a legal sequence of draws (index outside `remaining`, too short, too long) -/
-  | badWitness
-  deriving Repr, DecidableEq
 
 /-- One probabilistic route, as a function of the witness `ks` (the index `dist.sample(rng)` returned at
 every step). -/
@@ -183,6 +235,17 @@ def generate (N : Num F) (pm : PM F) (dist : Nat → Nat → F) (α β : F) (n n
   match greedyTour N pm n with
   | none => .panic
   | some g =>
+    match sampleAll N pm dist α β n numAnts wits with
+    | .tours ts => .tours (g :: ts)
+    | o => o
+
+/-- `AcoGeneration::execute` with the greedy tie-breaking left open (`gw` = the greedy route's witness). -/
+def generateW (N : Num F) (le : F → F → Bool) (pm : PM F) (dist : Nat → Nat → F) (α β : F) (n numAnts : Nat)
+    (gw : List Nat) (wits : List (List Nat)) : GenOut :=
+  match greedyTourW le pm n gw with
+  | .panic => .panic
+  | .badWitness => .badWitness
+  | .ok g =>
     match sampleAll N pm dist α β n numAnts wits with
     | .tours ts => .tours (g :: ts)
     | o => o
@@ -453,9 +516,8 @@ inductive StepOut (F : Type) where
   | badWitness
 
 /-- Generation, evaluation with the closing-edge tour length, pheromone update. -/
-def step (N : Num F) (k : Kind F) (pm : PM F) (dist : Nat → Nat → F) (α β : F) (n numAnts : Nat)
-    (wits : List (List Nat)) : StepOut F :=
-  match generate N pm dist α β n numAnts wits with
+def stepOf (k : Kind F) (pm : PM F) (dist : Nat → Nat → F) (g : GenOut) : StepOut F :=
+  match g with
   | .panic => .genPanic
   | .badWitness => .badWitness
   | .tours ts =>
@@ -464,6 +526,38 @@ def step (N : Num F) (k : Kind F) (pm : PM F) (dist : Nat → Nat → F) (α β 
     match update k pm pop with
     | none => .updPanic ts objs
     | some pm' => .ok ts objs pm'
+
+def step (N : Num F) (k : Kind F) (pm : PM F) (dist : Nat → Nat → F) (α β : F) (n numAnts : Nat)
+    (wits : List (List Nat)) : StepOut F :=
+  stepOf k pm dist (generate N pm dist α β n numAnts wits)
+
+/-- The same step with the greedy tie-breaking left open. -/
+def stepW (N : Num F) (le : F → F → Bool) (k : Kind F) (pm : PM F) (dist : Nat → Nat → F) (α β : F)
+    (n numAnts : Nat) (gw : List Nat) (wits : List (List Nat)) : StepOut F :=
+  stepOf k pm dist (generateW N le pm dist α β n numAnts gw wits)
+
+/-! ### Runs: every pheromone state the algorithm can reach -/
+
+/-- What a run of `aco` fixes: the update component, the instance, the generation parameters and the value
+`AcoGeneration::init` fills the matrix with. -/
+structure RunCfg (F : Type) where
+  kind : Kind F
+  dist : Nat → Nat → F
+  α : F
+  β : F
+  n : Nat
+  numAnts : Nat
+  τ0 : F
+
+/-- The pheromone states a run can reach: the matrix `AcoGeneration::init` inserts and, from a reachable
+state, the result of one loop pass (generation → evaluation → update) — for ANY choice among tied greedy
+trails (`gw`) and ANY draws of the sampler (`wits`), after any number of passes. -/
+inductive Reach (N : Num F) (le : F → F → Bool) (c : RunCfg F) : PM F → Prop
+  | init : Reach N le c (PM.new c.n c.τ0)
+  | pass {pm pm' : PM F} (gw : List Nat) (wits ts : List (List Nat)) (objs : List F) :
+      Reach N le c pm →
+      stepW N le c.kind pm c.dist c.α c.β c.n c.numAnts gw wits = .ok ts objs pm' →
+      Reach N le c pm'
 
 end
 
@@ -476,10 +570,13 @@ def totalKey (x : Float) : UInt64 :=
   let b := x.toBits
   if b >>> 63 == 1 then ~~~ b else b ||| 0x8000000000000000
 
+def tolRel : Float := 1e-9
+def tolAbs : Float := 1e-300
+
 def closeF (a b : Float) : Bool :=
   a.toBits == b.toBits || (a.isNaN && b.isNaN) ||
     (a.isFinite && b.isFinite &&
-      Float.abs (a - b) ≤ 1e-9 * (if Float.abs a ≤ Float.abs b then Float.abs b else Float.abs a) + 1e-300)
+      Float.abs (a - b) ≤ tolRel * (if Float.abs a ≤ Float.abs b then Float.abs b else Float.abs a) + tolAbs)
 
 def num : Num Float :=
   { pow := Float.pow, fin := Float.isFinite, tle := fun a b => totalKey a ≤ totalKey b,
@@ -560,10 +657,21 @@ intermediate value can overflow. -/
 
 def inRange (lo hi x : Float) : Bool := x.isFinite && lo ≤ x && x ≤ hi
 
-def pmOk (pm : PM Float) : Bool := pm.wf && pm.inner.all (inRange 0.0 1e15)
+/-- Bounds as constants (evaluated once; a literal with a large exponent is costly to convert). -/
+def distLo : Float := 1e-9
+def distHi : Float := 1e300
+def objHi : Float := 1e301
+def posInf : Float := 1.0 / 0.0
 
+def pmHi : Float := 1e15
+
+def pmOk (pm : PM Float) : Bool := pm.wf && pm.inner.all (inRange 0.0 pmHi)
+
+/-- Distances between distinct cities: positive, not so small that `(1/d)^beta` could overflow, and otherwise
+of any finite size that keeps a tour length finite — `(1/d)^beta` may underflow to 0, the `1e-15` offset keeps
+the weight legal. -/
 def distOk (d : PM Float) : Bool :=
-  d.wf && allEntries d.dim (fun i j => i == j || inRange 1e-9 1e9 (d.getD i j 0.0))
+  d.wf && allEntries d.dim (fun i j => i == j || inRange distLo distHi (d.getD i j 0.0))
 
 def genValid (pm d : PM Float) (α β : Float) : Bool :=
   pmOk pm && distOk d && pm.dim == d.dim && 1 ≤ d.dim && inRange 0.0 5.0 α && inRange 0.0 5.0 β
@@ -575,7 +683,7 @@ def kindValid (k : Kind Float) : Bool :=
 
 def popValid (n : Nat) (pop : List (Ind Float)) : Bool :=
   routesValid n pop && (pop.drop 1).all (fun ind => match ind.obj with
-    | some o => inRange 1e-9 1e15 o
+    | some o => inRange distLo objHi o || o == posInf
     | none => false)
 
 /-- A pair `(last, r)` whose sampling weight alone makes `WeightedIndex::new` fail — then some sequence
@@ -587,9 +695,31 @@ def mayPanic (pm d : PM Float) (α β : Float) : Bool :=
        | some [w] => (0.0 ≤ w) && w.isFinite
        | _ => false))
 
+/-- "No remaining trail exceeds the chosen one": IEEE `≤`, or `total_cmp` (which also orders NaN and the
+signed zeros — only the malformed stream has those). -/
+def leAny (a b : Float) : Bool := a ≤ b || num.tle a b
+
+/-- The model's generation for the implementation's tours `ts`: the code-shaped `generate` (last maximal
+trail) if that is what the implementation produced, otherwise the generation whose greedy route takes the
+implementation's choices — accepted only if every one of them is a maximal trail. -/
+def genFor (pm : PM Float) (dist : Nat → Nat → Float) (α β : Float) (n ants : Nat) (ts wits : List (List Nat)) :
+    GenOut :=
+  let g := generate num pm dist α β n ants wits
+  match g with
+  | .tours mts =>
+    if mts == ts then g
+    else
+      match generateW num leAny pm dist α β n ants (recoverWit n (ts.headD [])) wits with
+      | .tours wts => if wts == ts then .tours wts else g
+      | _ => g
+  | _ => g
+
 /-- First failing clause of the generation property on `ts` (`-` = all hold). -/
 def genClass (pm : PM Float) (n ants : Nat) (ts : List (List Nat)) (checkGreedy : Bool) : String :=
-  if ts.length != 1 + ants then "count"
+  -- an instance without any city is outside the property: the route `[0]` the code builds names a city
+  -- that does not exist, and no route could be a permutation "starting at city 0"
+  if n == 0 then "-"
+  else if ts.length != 1 + ants then "count"
   else if !ts.all (isPermFromZero n) then "not-perm"
   else if checkGreedy && !(match ts with | [] => false | g :: _ => greedyOk pm n g) then "not-greedy"
   else "-"
@@ -621,19 +751,28 @@ def handleGen (args : List Sexp) (impl : Sexp) : Option Verdict := do
   let ants ← nat? kS
   let n := d.dim
   let valid := genValid pm d α β
-  match impl with
-  | .atom "panic" =>
+  let refused (cls : String) : Option Verdict :=
+    -- outside the domain a refusal may be a panic or an `Err`; inside it either one is a violation
     let predicted := (greedyTour num pm n).isNone || (ants > 0 && mayPanic pm d α β)
-    pure (verdict predicted (if valid then "panic" else "-") (.atom (if predicted then "panic" else "no-panic")) valid)
+    pure (verdict predicted (if valid then cls else "-") (.atom (if predicted then "panic" else "no-panic")) valid)
+  match impl with
+  | .atom "panic" => refused "panic"
+  | .atom "err" => refused "err"
   | .atom "timeout" => pure (verdict false "timeout" (.atom "-"))
-  | .list [.atom "ok", tS, wS] =>
+  | .list (.atom "ok" :: tS :: wS :: rest) =>
     let ts ← natLists? "tours" tS
     let wits ← natLists? "wit" wS
-    let (agree, model) := match generate num pm (distFn d) α β n ants wits with
+    -- the routes replace the current population: the stack keeps its height (1 in the harness' state)
+    let depthOk := match rest with
+      | [.list [.atom "depth", dS]] => nat? dS == some 1
+      | [] => true
+      | _ => false
+    let (agree, model) := match genFor pm (distFn d) α β n ants ts wits with
       | .tours mts => (mts == ts, toursToSexp mts)
       | .panic => (false, .atom "panic")
       | .badWitness => (false, .atom "badwitness")
-    pure (verdict agree (genClass pm n ants ts valid) model valid)
+    let gc := genClass pm n ants ts valid
+    pure (verdict (agree && depthOk) (if gc != "-" then gc else if depthOk then "-" else "stack") model valid)
   | _ => none
 
 /-- `(upd kind (pm ..) (pop (ind route obj)*))` -/
@@ -700,7 +839,7 @@ def judgeStep (i : StepIn) (impl : Sexp) : Option Verdict := do
     -- the harness' objective function refuses NaN / -inf tour lengths
     let ts ← natLists? "tours" tS
     let wits ← natLists? "wit" wS
-    let (agree, model) := match generate num i.pm dist i.α i.β n i.ants wits with
+    let (agree, model) := match genFor i.pm dist i.α i.β n i.ants ts wits with
       | .tours mts => (mts == ts && (mts.map (tourLen dist)).any (fun o => o.isNaN || o == -(1.0 / 0.0)), toursToSexp mts)
       | _ => (false, .atom "-")
     let gc := genClass i.pm n i.ants ts validG
@@ -709,7 +848,7 @@ def judgeStep (i : StepIn) (impl : Sexp) : Option Verdict := do
     let ts ← natLists? "tours" tS
     let wits ← natLists? "wit" wS
     let objs ← floats? (← tagged? "objs" oS)
-    let m := step num i.k i.pm dist i.α i.β n i.ants wits
+    let m := stepOf i.k i.pm dist (genFor i.pm dist i.α i.β n i.ants ts wits)
     let agree := match m with
       | .updPanic mts mobjs => mts == ts && listClose mobjs objs
       | _ => false
@@ -720,7 +859,7 @@ def judgeStep (i : StepIn) (impl : Sexp) : Option Verdict := do
     let wits ← natLists? "wit" wS
     let objs ← floats? (← tagged? "objs" oS)
     let pm' ← pm? "pm" pS
-    let m := step num i.k i.pm dist i.α i.β n i.ants wits
+    let m := stepOf i.k i.pm dist (genFor i.pm dist i.α i.β n i.ants ts wits)
     let agree := match m with
       | .ok mts mobjs mpm => mts == ts && listClose mobjs objs && (pmClose mpm pm' || updAgree i.k i.pm (mkPop mts mobjs) pm')
       | _ => false
